@@ -40,6 +40,9 @@ def rand_geom(rng, small=True, cbs=None):
     ro = rng.choice([0, 1, 2, 3, 4, 4, 5, 6])
     cs = 1 << cb
     nclusters = rng.choice([8, 16, 33, 64, 100, 256])
+    if cb <= 10 and rng.random() < 0.25:
+        # large sparse disk: several L1 blocks / many L2 tables, touched at a few spots
+        nclusters = rng.choice([4096, 8192, 16384, 40000])
     size = nclusters * cs
     if rng.random() < 0.2 and cs > 512:
         size += rng.choice([512, cs // 2, cs - 512])
@@ -98,7 +101,13 @@ def gen_ops(rng, g, nops, mix=None, flush_end=True):
     size = g.size
     tag = 1
     hot = [rng.randrange(0, max(1, size // cs)) for _ in range(4)]
-    if rng.random() < 0.5:
+    if g.l2 and rng.random() < 0.5:
+        # straddle an L2 slice boundary (slices of one table are flushed separately)
+        se = (1 << g.l2[0]) // 8
+        nsl = max(1, (size // cs) // se)
+        b = se * rng.randrange(1, nsl + 1)
+        hot = [min(max(0, b + d), max(0, size // cs - 1)) for d in (-2, -1, 0, 1)]
+    elif rng.random() < 0.5:
         # neighbours inside one L2 table / slice
         hot = [min(max(0, hot[0] + d), max(0, size // cs - 1)) for d in (0, 1, 2, 5)]
 
@@ -160,6 +169,40 @@ def gen_ops(rng, g, nops, mix=None, flush_end=True):
             ops.append((k,))
     if flush_end:
         ops.append(('F',))
+    return ops
+
+
+def boundary_ops(rng, g):
+    """histories that work across an L2 slice / L2 table boundary: multi-cluster writes, flush,
+    discard and rewrite of a range that has clusters on both sides of the boundary"""
+    cs, bs = g.cs, 1 << g.bs
+    nclus = g.size // cs
+    l2e = cs // 8
+    se = (1 << g.l2[0]) // 8 if g.l2 else min(512, l2e)
+    cands = [b for b in list(range(se, nclus - 2, se))[:6] + list(range(l2e, nclus - 2, l2e))[:2] if 2 <= b < nclus - 2]
+    if not cands:
+        return None
+    b = rng.choice(cands)
+    k1, k2 = rng.randrange(1, 3), rng.randrange(1, 3)
+    lo, hi = (b - k1) * cs, (b + k2) * cs
+    ops = []
+    tag = 1
+    if rng.random() < 0.5:
+        ops.append(('W', lo, hi - lo, tag)); tag += 1
+    else:
+        for c in range(b - k1, b + k2):
+            ops.append(('W', c * cs + rng.randrange(0, cs // bs) * bs, bs, tag)); tag += 1
+    if rng.random() < 0.8:
+        ops += [('F',), ('S',)]
+    ops.append(('D', lo, hi - lo))
+    if rng.random() < 0.6:
+        other = rng.randrange(0, nclus)
+        ops.append(('W', other * cs, cs, tag)); tag += 1
+    if rng.random() < 0.5:
+        ops.append(('W', (b - 1) * cs, 2 * cs, tag)); tag += 1
+    ops.append(('F',))
+    if rng.random() < 0.5:
+        ops.append(('S',))
     return ops
 
 
